@@ -78,10 +78,20 @@ def replay(rec: Dict[str, Any]) -> List[Tuple[str, Dict[str, Any], str]]:
             ms: List[Any] = []
             try:
                 ms = list(path.finditer(doc))
+                beyond: List[Any] = []
                 for m in ms:
                     disc = check_match(m, doc, d, tbl)
+                    if disc.startswith("pointer-raised") and any(isinstance(p, str) and p.lstrip("-").isdigit() and abs(int(p)) > 2**53 - 1 for p in m.parts):
+                        # the recorded finding (an integer member name beyond the index limit) must not hide what
+                        # else is wrong in the same result: note it and go on with the other matches
+                        beyond.append((disc, m))
+                        disc = ""
+                        continue
                     if disc:
                         break
+                if not disc and beyond:
+                    out.append((f"{beyond[0][0]}|member-name-is-an-integer-beyond-the-index-limit", {"query": text, "doc": show(tbl.docs[d]["doc"]),
+                                "matches": [(m.path, list(m.parts)) for _, m in beyond][:8], "tagged": rec}, beyond[0][0]))
                 if not disc:
                     # equal paths <=> same node
                     byp: Dict[str, Any] = {}
